@@ -539,3 +539,19 @@ MORE_MODELS.update({
     r"^std::option::Option::<.*>::ok_or::<": m_option_ok_or,
     r"^std::option::Option::<.*>::and_then::<": m_option_and_then2,
 })
+
+
+def m_slice_contains(it, args, callee):
+    """`slice.contains(x)`: true for the very same token, otherwise an unconstrained Boolean per element (PartialEq on
+    opaque payloads is not interpreted)"""
+    v = _vec(it, args[0])
+    x = it.deref(args[1], it.cur_env)
+    if any(e is x for e in v.items):
+        return SV("bool", "true")
+    if not v.items:
+        return SV("bool", "false")
+    bs = [it.sem.fresh("Bool", "eq") for _ in v.items]
+    return SV("bool", "(or %s)" % " ".join(bs) if len(bs) > 1 else bs[0])
+
+
+VEC_MODELS[r"^core::slice::<impl \[.*\]>::contains$"] = m_slice_contains
